@@ -94,7 +94,11 @@ pub fn random_history(store: &ContinuityStore, thread: &str, rng: &mut Rng, n: u
         let own: Vec<Msg> = msgs.iter().filter(|m| m.thread == thread).cloned().collect();
         match rng.below(10) {
             0..=3 => {
-                let id = store.append_message(thread, "user".into(), "cli".into(), format!("hello {}", rng.below(1000))).unwrap();
+                const WORDS: &[&str] = &["alpha", "beta", "gamma", "delta", "refactor", "parser", "tests", "deploy", "cache", "index", "é", "日本"];
+                let nw = rng.range(2, 8);
+                let content: String = (0..nw).map(|_| *rng.pick(WORDS)).collect::<Vec<_>>().join(" ");
+                let actor = if rng.chance(1, 4) { "assistant" } else { "user" };
+                let id = store.append_message(thread, actor.into(), "cli".into(), format!("{content} {}", rng.below(1000))).unwrap();
                 msgs.push(Msg { id, thread: thread.to_string() });
             }
             4 | 5 if !own.is_empty() => {
